@@ -171,12 +171,15 @@ Definition show_host (e : ip * host) : string :=
   (* key / Host.Addr.IP / MACEntry.MAC / Host.Addr.MAC (one value in the model: the two Go slices must stay equal) *)
   show_ip (fst e) ++ "/" ++ show_ip (h_ip (snd e)) ++ "/" ++ show_mac (h_mac (snd e)) ++ "/" ++ show_mac (h_mac (snd e)) ++ "/" ++
   b01 (h_online (snd e)) ++ b01 (h_dirty (snd e)) ++ "/" ++ dec_of_Z (h_last (snd e)) ++ "/" ++
-  show_names (h_names (snd e)).
+  show_names (h_names (snd e)) ++
+  (* Host.HuntStage and Host.Manufacturer: written once at creation (StageNormal; the OUI lookup, empty for the locally
+     administered and test MACs of the universe) and by no step of the tables afterwards *)
+  "/normal/".
 
 Definition show_macent (e : macent) : string :=
   show_mac (m_mac e) ++ "/" ++ b01 (m_online e) ++ b01 (m_captured e) ++ b01 (m_router e) ++ "/" ++
   show_ip (m_ip4 e) ++ "/" ++ show_ip (m_offer e) ++ "/" ++ show_ip (m_gua e) ++ "/" ++ show_ip (m_lla e) ++
-  "/[" ++ join "+" (map show_ip (m_hosts e)) ++ "]/" ++ show_names (m_names e).
+  "/[" ++ join "+" (map show_ip (m_hosts e)) ++ "]/" ++ show_names (m_names e) ++ "/".   (* MACEntry.Manufacturer: as above *)
 
 Definition show_tables (s : state) : string :=
   "H:" ++ join "," (map show_host (sorted_hosts s)) ++ "|M:" ++ join "," (map show_macent (macs s)).
